@@ -410,7 +410,7 @@ Definition chk_struct (p : list sub * N) : bool := N.eqb (enc (cancel (all_dup %
     if len(enc) != nchains:
         rep.fail("broken-correspondence", "chain driver returned %d results for %d chains" % (len(enc), nchains), "C17:chains-driver", theorem="cancel")
         return
-    shard = 40000
+    shard = 8000      # a 40 000-element literal overflowed Coq's stack once (thorough tier)
     all_chains = None
     for s0 in range(0, nchains, shard):
         part = enc[s0:s0 + shard]
